@@ -18,6 +18,7 @@ import multiprocessing as mp
 import os
 
 from .. import common, streams
+from . import _multi
 from ..content import gen_content
 from ..main import Report
 
@@ -267,6 +268,8 @@ def run(tier: str) -> Report:
             rep.stats[k] = rep.stats.get(k, 0) + v
         if len(rep.samples) < 3 and r['kind'] == 'A' and r.get('config'):
             rep.samples.append(r['config'])
+    # streams handed out by a long-open handle through the slow read path (snapshot, loose, refreshed index), several per request
+    rep.failures += _multi.stale_handle_failures('C07', 40 if tier == 'quick' else 600, ('bulkseek-wrong',), rep)
     rep.stats.update({f'programs.{k}': v for k, v in kinds.items()})
     rep.distinct_nontrivial = rep.evaluations  # every program is generated from its own PRNG state; ≥3 commands each
     rep.rule = ('seeded programs over read(n)/read()/seek(t,0|1|2)/tell(), 80% in-range targets plus an out-of-range stream; '
@@ -281,6 +284,9 @@ def run(tier: str) -> Report:
 
 
 def replay(path: str) -> int:
+    r_ = _multi.replay_multi('C07', path)
+    if r_ is not None:
+        return r_
     doc = json.loads(open(path).read())
     rp = doc.get('replay') or {}
     os.environ['VERIF_SEED'] = str(doc.get('seed', 0))
